@@ -264,6 +264,9 @@ func evalCertrt(args []string) string {
 	t := randTemplate(r)
 	t.SignatureAlgorithm = alg
 	subj := keyFor(600 + r.intn(5))
+	if r.chance(1, 3) { // a public key with a short coordinate (leading zero octets in X or Y)
+		subj = shortCoordKey(r)
+	}
 	der, err := x509.CreateCertificate(t, issuer, &subj.PublicKey, signer)
 	if err != nil {
 		return "reject"
@@ -327,6 +330,9 @@ func evalCsrrt(args []string) string {
 		return "bad-op"
 	}
 	k := keyFor(700 + r.intn(5))
+	if r.chance(1, 3) {
+		k = shortCoordKey(r)
+	}
 	t := &x509.CertificateRequest{Subject: randName(r), SignatureAlgorithm: alg}
 	if r.chance(1, 2) {
 		t.DNSNames = []string{"req.example.com"}
@@ -508,4 +514,10 @@ func genC09(r *rng, tier string, emit func(string)) {
 		}
 	}
 	c09xGen(r, tier, emit) // extension codecs (kuext / bcext) against Model.X509Ext
+}
+
+// SM2 keys whose public point has a 31-byte X (327), a 31-byte Y (107), a 30-byte coordinate (17883) or both
+// coordinates short (278982): fixed-width encodings must left-pad them
+func shortCoordKey(r *rng) *sm2.PrivateKey {
+	return privFromD(big.NewInt(int64(r.pick([]int{327, 107, 17883, 278982}))))
 }
